@@ -337,6 +337,60 @@ fn main() {
             }
             cl.close();
         }
+        // the host closes its side of the relay connection after an allowed request; the next request on the same client
+        // connection is one the rules deny: it is judged (and recorded) by the rules, whatever state the relay connection is in
+        if pol.enforce() || pol.audit() {
+            let c = &callers[0];
+            let hi = [WS, HOSTGA, IMDS].iter().position(|d| *d == c.dest).unwrap();
+            let host = w.hosts.all()[hi];
+            host.set_responder(std::sync::Arc::new(|_m: &Msg, _c, _i| Action::ReplyClose(vec![simple_response(200, &[], b"ok")])));
+            w.rt.block_on(async { st_shared.clear_all_summary().await.unwrap() });
+            sport = if sport >= 35000 { 33000 } else { sport + 1 };
+            let mut cl = w.connect(Some(sport), Some(&AuditRec::to(c.dest, c.uid, c.pid, c.is_root))).unwrap();
+            let first = cl.send(&build_request("GET", URLS[0], &[("Host", b"h")], None, None)).map_err(|e| e.to_string()).and_then(|_| cl.read_response(false, Duration::from_secs(10)).map(|m| m.status()));
+            std::thread::sleep(Duration::from_millis(30));
+            let cur = host.cursor();
+            let second = cl.send(&build_request("POST", URLS[1], &[("Host", b"h")], Some(b"body"), None)).map_err(|e| e.to_string()).and_then(|_| cl.read_response(false, Duration::from_secs(10)).map(|m| m.status()));
+            let upstream = host.requests_since(cur).len();
+            evals += 2;
+            let total: u64 = read_summary(&w).values().sum();
+            let case = json!({"mode": mode, "default_allow": default_allow, "family": "host-closed-relay-connection"});
+            if first != Ok(200) {
+                res.violation("host-closed-relay-connection:first-request", &format!("granted request got {:?}", first), case.clone());
+            }
+            if pol.enforce() && (second != Ok(403) || upstream != 0) {
+                res.violation("enforce:denial-not-answered-403:host-closed-relay-connection", &format!("a request the enforced rules deny, sent after the host had closed the relay connection, got {:?} with {upstream} request(s) upstream", second), case.clone());
+            }
+            if total != 1 {
+                res.violation("summary:host-closed-relay-connection", &format!("the denial sent after the host had closed the relay connection was recorded {total} times, expected 1"), case.clone());
+            }
+            cl.close();
+            host.set_responder(std::sync::Arc::new(|_m: &Msg, _c, _i| Action::Reply(vec![simple_response(200, &[], b"ok")])));
+        }
+        // many distinct callers: every denial is recorded, however many different keys the summary already holds
+        if (pol.enforce() || pol.audit()) && ci == 0 {
+            w.rt.block_on(async { st_shared.clear_all_summary().await.unwrap() });
+            let n_callers = if thorough { 1100usize } else { 520 };
+            let raw = build_request("POST", URLS[1], &[("Host", b"h")], Some(b"body"), None);
+            let mut answered = 0u64;
+            for i in 0..n_callers {
+                let pid = w.spawn_proc("/usr/bin/vt-many", &[&format!("{}", 200000 + i)], Some(1002));
+                sport = if sport >= 35000 { 33000 } else { sport + 1 };
+                if let Ok(mut cl) = w.connect(Some(sport), Some(&AuditRec::to(IMDS, 1002, pid, false))) {
+                    if cl.send(&raw).is_ok() && cl.read_response(false, Duration::from_secs(10)).is_ok() {
+                        answered += 1;
+                    }
+                    cl.close();
+                }
+            }
+            evals += n_callers as u64;
+            let sum = read_summary(&w);
+            let (keys, total) = (sum.len(), sum.values().sum::<u64>());
+            if keys != n_callers || total != n_callers as u64 {
+                res.violation("summary:many-distinct-callers", &format!("{n_callers} denied requests from {n_callers} different processes ({answered} answered) are recorded under {keys} keys with {total} occurrences"), json!({"mode": mode, "default_allow": default_allow, "family": "many-distinct-callers", "callers": n_callers}));
+            }
+            w.reap_children_named("/usr/bin/vt-many");
+        }
         // burst: many attributed connections, one denied request each, all sent before any response is read
         // (SAMPLED family: the server-side interleaving is whatever the runtime does)
         if pol.enforce() || pol.audit() {
@@ -388,7 +442,7 @@ fn main() {
     res.cov("histories", hist_n);
     res.cov("status_json_comparisons", status_json_checked);
     res.cov("exhaustive", true);
-    res.cov("rule", format!("every history of <= {max_len} requests over {{alice, bob -> IMDS; two elevated root processes -> WireServer, one of them also -> HostGAPlugin}} x 3 URLs (granted, matched-but-ungranted, unmatched) x {{host answers, host resets the connection}} (length-3 histories without the second root process), plus 5 identical denials, 6 denials on 3 concurrent keep-alive connections, a denied request on a connection that was opened (and served) while the rules were disabled, and a sampled burst of 250 (600) concurrent denied requests, under {} mode/default configurations; after every request the public failed-authorization summary is compared with the reference multiset (user, process path, command line, destination -> count); status.json of the real status task is compared for every 7th (quick: 37th) history and every 5-denial block; non-trivial = request the rules deny", configs.len()));
+    res.cov("rule", format!("every history of <= {max_len} requests over {{alice, bob -> IMDS; two elevated root processes -> WireServer, one of them also -> HostGAPlugin}} x 3 URLs (granted, matched-but-ungranted, unmatched) x {{host answers, host resets the connection}} (length-3 histories without the second root process), plus 5 identical denials, 6 denials on 3 concurrent keep-alive connections, a denied request on a connection that was opened (and served) while the rules were disabled, a denied request after the host closed the relay connection, 520 (1100) denied requests from as many different processes, and a sampled burst of 250 (600) concurrent denied requests, under {} mode/default configurations; after every request the public failed-authorization summary is compared with the reference multiset (user, process path, command line, destination -> count); status.json of the real status task is compared for every 7th (quick: 37th) history and every 5-denial block; non-trivial = request the rules deny", configs.len()));
     res.assume("audit-mode denials are compared with the same request under an allowing rule set (status and what the host received, modulo date/MAC headers)");
     std::process::exit(res.finish());
 }
